@@ -53,6 +53,7 @@ class Adapter:
         return self.loc(n,r) if r is not None else None
     def s_ExprStatNode(self,n): return ast.Expr(self.expr(n.expr))
     def s_PassStatNode(self,n): return ast.Pass()
+    def s_GlobalNode(self,n): return ast.Global([str(x) for x in n.names])
     def s_BreakStatNode(self,n): return ast.Break()
     def s_ContinueStatNode(self,n): return ast.Continue()
     def s_ReturnStatNode(self,n): return ast.Return(self.expr(n.value) if n.value is not None else None)
